@@ -44,6 +44,11 @@ PURE = {'isinstance', 'is_completed', 'is_paused', 'len', 'str', 'debug',
 def run(ctx):
     _run(ctx)
     from mstatic.rules import completion
+    r7 = ctx.rule('R7', 'a cancelled with-items item ends the task: no '
+                  'further item is started below a cancelled workflow '
+                  '(shared with C07.R5/R8)', 'GD')
+    from mstatic.rules import shared as _sh
+    _sh.cancelled_item_ends_with_items(ctx, r7)
     r6 = ctx.rule('R6', 'the completion verdict: nothing for a finished or '
                   'paused workflow or while tasks are pending; CANCELLED '
                   'before SUCCESS before ERROR (shared with C01.R17)', 'DT')
